@@ -246,7 +246,7 @@ def _spec_observation(root, rules, lab=None):
             enc_rules.append(enc(r, i) + [[]])
     empties = sorted(lab[c] for c in lab if c.is_empty())
     spec_in = [lab[root], 1, empties, enc_rules]
-    # equivalence rules with several children that were handed out unconverted: the open finding concerns the
+    # equivalence rules with several children that were handed out unconverted: the finding (fixed by 398db71) concerned the
     # ONE-WAY ones only (they come from rule_to_strategy); a two-way one is a defect of another kind
     nonunary = unconverted["oneway"] if not unconverted["twoway"] else 0
     info_unconverted = dict(unconverted)
@@ -721,7 +721,8 @@ def oracle(case, res):
             if not info.get("wf") and case["kind"] == "word":
                 why = "a word search handed out a rule set outside the hypotheses of the grouping theorems"
                 if info.get("nonunary") and case["ruledb"] in ("base", "forget"):
-                    # the constructor happened to get through, the rule set is the one of the open finding
+                    # the constructor happened to get through, the rule set is the one of the finding fixed by 398db71
+                    # (the tag names it; the entry being `fixed`, core does not mask it)
                     why += " [" + KNOWN_NONUNARY + ": %d unconverted equivalence rule(s) with several children]" % info["nonunary"]
                 return why
             fk = info.get("final_keys")
@@ -842,9 +843,10 @@ LEVEL_TEXT = (
     "them, every key of rule_to_strategy, every recorded equivalence edge (both ways when two-way) and every key of "
     "eqv_rule_to_strategy is turned back into a rule filed under exactly that entry (generic version for any stores "
     "whose lookups reproduce their keys, which C14 proves of RecomputingDict); C02_find_rule_outcomes - every exception "
-    "characterised; the foreign-parent limitation of RuleDBForgetStrategy and the open finding as machine-checked "
-    "counterexamples, the proposed repair as C02_repair_converts (+ Spec/FindRuleRepair.v: with it every equivalence "
-    "rule handed out is unary). Constructor, for every input satisfying wf_input (decidable: C02_wf_decided): "
+    "characterised; the foreign-parent limitation of RuleDBForgetStrategy (open C14 finding) and the finding "
+    "oneway-equivalence-with-empty-sibling (FIXED in /repo by 398db71; the _refuted theorem witnesses the old code, "
+    "convert = false) as machine-checked counterexamples, the repair - /repo as it is, convert = true - as "
+    "C02_repair_converts (+ Spec/FindRuleRepair.v: with it every equivalence rule handed out is unary). Constructor, for every input satisfying wf_input (decidable: C02_wf_decided): "
     "C02_grouping_never_asserts (no assert of _group_equiv_in_path, EquivalencePathRule.__init__, get_rule for ANY "
     "fuel), C02_grouping_terminates (within group_fuel turns), C02_grouping_result (_is_valid_spec holds, root kept, "
     "hidden classes dropped, every other class keeps its rule or becomes the head of a path rule whose members are the "
@@ -859,9 +861,11 @@ LEVEL_NOTE = (
     "Productivity of pruning-database specifications and genuineness of the rule objects of word universes are instance "
     "checks (DESIGN.md C02); the forest database's guarantees are C11's theorems (its _find_rule is not re-modelled "
     "here). C02_enforce_labels_partial: no KeyError and distinct labels, termination within the fuel unproved. The "
-    "constructor model covers group_equiv=True and False; paths of paths are not modelled. Open finding "
-    "oneway-equivalence-with-empty-sibling (KNOWN-FINDING): the model follows the code as it is; with the proposed "
-    "repair applied the harness detects it in the source of rules() (or VERIF_C02_CONVERT=1) and runs the repaired "
-    "model (tested on a patched copy: 24000 cases, 0 mismatches, 0 oracle failures). Trusted: Coq kernel, extraction, "
+    "constructor model covers group_equiv=True and False; paths of paths are not modelled. Finding "
+    "oneway-equivalence-with-empty-sibling is FIXED in /repo (398db71: SpecificationRuleExtractor.rules() converts) and "
+    "listed as `fixed` in known_findings.json, so nothing is masked: the harness detects the conversion in the source of "
+    "rules() (or VERIF_C02_CONVERT=1) and runs the model with convert = true on every case (24000 cases, 0 mismatches, "
+    "0 oracle failures); the convert = false branch of the model describes the code before the fix and is exercised by no "
+    "case; a return of the defect is reported as a violation. Trusted: Coq kernel, extraction, "
     "harness, recorded find_path/set-order replay."
 )
